@@ -338,16 +338,19 @@ def f64Decode (bits : Nat) : BF :=
   else if e = 0 then (if f = 0 then .zero neg else .fin neg f (-1074))
   else .fin neg (2 ^ 52 + f) ((e : Int) - 1075)
 
-/-- `Float64ToBigInt` on a float64 value already held as a `big.Float`: `target` has
-    precision 512 and the default mode ToNearestEven, `base = 10^18` is exact, one `Mul`,
-    then `Int` (truncate; ±Inf leaves 0). -/
-def float64ToBigIntOf (x : BF) : Res :=
+/-- `Float64ToBigInt` on a float64 value already held as a `big.Float`, with scale factor
+    `B`: `target` has precision 512 and the default mode ToNearestEven, `base = B` is exact,
+    one `Mul`, then `Int` (truncate; ±Inf leaves 0). -/
+def float64ToBigIntWith (B : Nat) (x : BF) : Res :=
   match x with
   | .nan => .panic
   | x =>
-    match mul .nearestEven prec x (.fin false 1000000000000000000 0) with
+    match mul .nearestEven prec x (.fin false B 0) with
     | .nan => .panic
     | t => .ok (toInt t)
+
+/-- `Float64ToBigInt` (`baseNumber = 10^18`). -/
+def float64ToBigIntOf (x : BF) : Res := float64ToBigIntWith 1000000000000000000 x
 
 /-- `Float64ToBigInt(math.Float64frombits(bits))`. -/
 def float64ToBigInt (bits : Nat) : Res := float64ToBigIntOf (f64Decode bits)
